@@ -38,11 +38,14 @@ pub(crate) fn gen(r: &mut Rng) -> Case {
             let ins: Vec<&str> = (0..k).map(|_| *r.pick(&["a", "i", "V", "s", "t", "C", "k"][..])).collect();
             let outs: Vec<&str> = (0..k).map(|_| *r.pick(&["o", "x", "e", "[+nasal]", "*"][..])).collect();
             let envs: Vec<&str> = (0..k).map(|_| *r.pick(&["_#", "#_", "_C", "V_", "_$", "t_", "_ (C) #", ":{ _t, k_ }:"][..])).collect();
-            let (a, b) = match r.below(5) {
+            let (a, b) = match r.below(7) {
                 0 => (format!("{} > {} / {}", ins.join(", "), outs.join(", "), envs[0]), ins.iter().zip(&outs).map(|(i, o)| format!("{i} > {o} / {}", envs[0])).collect()),
                 1 => (format!("{} > {} / {}", ins[0], outs[0], envs.join(", ")), envs.iter().map(|e| format!("{} > {} / {e}", ins[0], outs[0])).collect()),
                 2 => (format!("{} > {} / {}", ins.join(", "), outs[0], envs.join(", ")), ins.iter().zip(&envs).map(|(i, e)| format!("{i} > {} / {e}", outs[0])).collect()),
                 3 => (format!("{} > {} | {}", ins.join(", "), outs.join(", "), envs.join(", ")), (0..k).map(|j| format!("{} > {} | {}", ins[j], outs[j], envs[j])).collect()),
+                // the exception block alone is condensed (seed C12-e): one sub-rule per exception, input/output/context broadcast
+                5 => (format!("{} > {} | {}", ins[0], outs[0], envs.join(", ")), envs.iter().map(|e| format!("{} > {} | {e}", ins[0], outs[0])).collect()),
+                6 => (format!("{} > {} / {} | {}", ins[0], outs[0], envs[k - 1], envs.join(", ")), envs.iter().map(|e| format!("{} > {} / {} | {e}", ins[0], outs[0], envs[k - 1])).collect()),
                 _ => (format!("{} > {}", ins.join(", "), outs[0]), ins.iter().map(|i| format!("{i} > {}", outs[0])).collect::<Vec<String>>()),
             };
             Case { family: "condensed".into(), short: vec![a], long: b, words }
